@@ -32,9 +32,25 @@ STRENGTHENED = {
  "C18_c": "error list kept on the shared syntax-tree node: invisible to single-engine C18; caught by the pool-storm conc block (C06 conc-error-lost) and by C19",
  "C18_d": "missed at first; locals that exist before the block and are re-assigned inside it added",
  "C20_c": "missed at first; decoy added: the same faulty text on an earlier line inside a branch that is never taken",
+ "C01_e": "missed at first by design (faults below the right operand of && / || were not generated); the property is unconditional, so they are generated now and the short-circuit 'optimisation' is caught",
+ "C01_f": "missed at first; numeric rule names beyond the int32 range added",
+ "C03_e": "missed at first; caught by C06 (methods of request-scoped objects in the storm rules) and by the new C03 re-injection sub-check",
+ "C04_e": "the sorted stop-tag loops are C14's entry points: caught by C14 (error clause)",
+ "C04_f": "in-place filtering of the published sorted list: caught by C07 (torn executions) and C19",
+ "C05_e": "missed at first; duplicate names in selected N-M calls added (clause: no unselected rule runs)",
+ "C06_f": "missed at first; empty-DAG requests added to the storms (C06 cross-talk, C17 double hand-back)",
+ "C09_e": "missed at first; conc stress (wide conc block over locals, 240 executions) added to the random part: the process dies",
+ "C09_f": "missed at first; DAG calls with the faulty rule in the last / only layer added",
+ "C10_f": "needs an EMPTY pool before the incremental update: caught by C16 (clear, incremental, executions on every instance)",
+ "C11_d": "caught reliably since result maps are re-compared at the end of the case and laggard holds are on",
+ "C11_f": "a shared loop variable in the fan-out goroutines: big rule sets added to C11; the race detector (C19) catches it at once",
+ "C14_f": "missed at first; a rule is now replaced by an incremental update half-way through a case (stale cached selection)",
+ "C15_f": "missed at first; caught by the C03 re-injection sub-check (a name that was a rule local is later injected as a pointer)",
+ "C17_f": "missed at first; exec-model changes / queries in a tight loop next to the storm requests added: the pool wedges",
+ "C20_f": "missed at first; texts with the faulty construct beyond line 65535 added",
 }
 rows = []
-for d in sorted(glob.glob('/verif/seeded/C*_*')):
+for d in sorted(glob.glob('/verif/seeded/C[0-9]*_[a-z]')):
     sid = os.path.basename(d)
     am = json.load(open(d + '/meta.agent.json'))
     res = open(d + '/result.txt').read() if os.path.exists(d + '/result.txt') else ''
